@@ -303,6 +303,12 @@ def run_sequence(cases):
     return [run_case(c) for c in cases]
 
 
+def run_sequence_same_provider(cases):
+    """several different runs one after the other through one provider object built from the first case"""
+    prov = make_provider(cases[0])
+    return [run_case(c, provider=prov) for c in cases]
+
+
 def run_same_provider(case):
     """the case analysed three times in a row through one and the same provider object (a provider is built once and reused)"""
     prov = make_provider(case)
